@@ -48,6 +48,7 @@ func newUDPSink() *udpSink {
 	return s
 }
 func (s *udpSink) port() uint16 { return uint16(s.c.LocalAddr().(*net.UDPAddr).Port) }
+
 // settle waits until no new datagram has arrived for `quiet` (at most `max`).
 func (s *udpSink) settle(quiet, max time.Duration) {
 	deadline := time.Now().Add(max)
